@@ -563,6 +563,34 @@ pub fn apply_plan(plan: &mut Plan, options: &ApplyOptions) -> Result<()> {
 
     // Note: Backup system uses diffy patches, not file backups
 
+    // Refuse to overwrite: before anything is changed, make sure no planned destination is
+    // already occupied by something else (a case-only rename of the same file is fine)
+    for rename in &plan.paths {
+        if rename.new_path.as_os_str().is_empty() || rename.new_path == rename.path {
+            continue;
+        }
+        if let Ok(occupant) = fs::symlink_metadata(&rename.new_path) {
+            // On a case-insensitive filesystem a case-only rename finds itself there
+            let is_link =
+                |p: &Path| fs::symlink_metadata(p).is_ok_and(|m| m.file_type().is_symlink());
+            let same_entry = !occupant.file_type().is_symlink()
+                && !is_link(&rename.path)
+                && matches!(
+                    (fs::canonicalize(&rename.path), fs::canonicalize(&rename.new_path)),
+                    (Ok(a), Ok(b)) if a == b
+                );
+            if !same_entry {
+                let e = anyhow!(
+                    "Rename conflict: cannot rename {} to {}: destination already exists",
+                    rename.path.display(),
+                    rename.new_path.display()
+                );
+                state.log(&format!("Refusing to apply: {}", e))?;
+                return Err(e);
+            }
+        }
+    }
+
     // STEP 1: Store original content BEFORE any changes for diff generation
     let mut original_contents: HashMap<PathBuf, String> = HashMap::new();
     if options.create_backups {
